@@ -390,7 +390,7 @@ where
 
                 this.waiter.close();
                 this.inner.set(InnerCheckoutConnecting::Connected);
-                Poll::Ready(Ok(register_connected(this.pool, *this.token, connection)))
+                Poll::Ready(Ok(checked_out(this.pool, *this.token, connection)))
             }
             CheckoutConnectingProj::Connecting(connector) => {
                 let result = ready!(connector.poll_connector(
@@ -459,6 +459,30 @@ where
     }
 }
 
+/// Wrap a connection which was taken out of the pool's idle set.
+///
+/// A shareable connection was already put back for other checkouts when it
+/// was taken; an exclusive connection returns to the pool when dropped.
+fn checked_out<C, B>(poolref: &PoolRef<C, B>, token: Token, connection: C) -> Pooled<C, B>
+where
+    C: PoolableConnection<B>,
+    B: Send + 'static,
+{
+    if connection.can_share() {
+        Pooled {
+            connection: Some(connection),
+            token: Token::zero(),
+            pool: PoolRef::none(),
+        }
+    } else {
+        Pooled {
+            connection: Some(connection),
+            token,
+            pool: poolref.clone(),
+        }
+    }
+}
+
 /// Register a connection with the pool referenced here.
 fn register_connected<C, B>(
     poolref: &PoolRef<C, B>,
@@ -510,6 +534,15 @@ where
         use crate::verif_hooks::shim as tokio;
         #[cfg(debug_assertions)]
         tracing::trace!(id=%self.id, "drop for checkout");
+
+        // An exclusive connection taken from the pool but never delivered goes back.
+        if let Some(connection) = self.as_mut().project().connection.take() {
+            if !connection.can_share() && connection.is_open() {
+                if let Some(mut pool) = self.pool.lock() {
+                    pool.push(self.token, connection, self.pool.clone());
+                }
+            }
+        }
 
         if let Some(checkout) = self.as_mut().as_delayed() {
             tokio::task::spawn(async move {
